@@ -380,25 +380,34 @@ static void path_exit(int kind, const char* msg) {
   _exit(0);
 }
 
+static bool trace_forks = false;
+static std::map<unsigned, bool>* decided;      // per path: simplified condition (ast id) -> truth value on this path
+static std::vector<z3::expr>* keep;            // keeps those asts alive so that ids are not reused
 // Decide a symbolic condition: returns the concrete truth value for this path, forking if both are feasible.
 static bool decide(const z3::expr& c0) {
   z3::expr c = c0.simplify();
   if (c.is_true()) { __sync_fetch_and_add(&sh->by_norm, 1); return true; }
   if (c.is_false()) { __sync_fetch_and_add(&sh->by_norm, 1); return false; }
+  // a condition already decided on this path keeps its truth value (the path condition only grows)
+  { auto it = decided->find(c.id()); if (it != decided->end()) { __sync_fetch_and_add(&sh->by_norm, 1); return it->second; } }
   if (sh->deadline > 0 && now_s() > sh->deadline) path_exit(4, "wall budget exhausted");
   z3::check_result rt = check(c);
+  // the path condition is satisfiable (invariant of the exploration), so if c is infeasible its negation holds on the whole path
+  if (rt == z3::unsat) { decided->insert({c.id(), false}); keep->push_back(c); return false; }
   z3::check_result rf = check(!c);
   if (rt == z3::unknown || rf == z3::unknown) {
     __sync_fetch_and_add(&sh->unknowns, 1); my_unknowns++;
     if (!unknown_both) path_exit(3, "solver returned unknown on branch feasibility");
     if (rt == z3::unknown) rt = z3::sat; if (rf == z3::unknown) rf = z3::sat;
   }
-  if (rt == z3::sat && rf == z3::unsat) { return true; }
-  if (rt == z3::unsat && rf == z3::sat) { return false; }
+  if (rt == z3::sat && rf == z3::unsat) { decided->insert({c.id(), true}); keep->push_back(c); return true; }
+  if (rt == z3::unsat && rf == z3::sat) { decided->insert({c.id(), false}); keep->push_back(c); return false; }
   if (rt == z3::unsat && rf == z3::unsat) { path_exit(2, "infeasible path condition"); }
   __sync_fetch_and_add(&sh->forks, 1); depth++;
-  if (fork_path()) { add_pc(c); return true; }
-  add_pc(!c); return false;
+  keep->push_back(c);
+  if (trace_forks) fprintf(stderr, "FORK d=%ld %s\n", depth, c.to_string().c_str());
+  if (fork_path()) { add_pc(c); decided->insert({c.id(), true}); return true; }
+  add_pc(!c); decided->insert({c.id(), false}); return false;
 }
 
 static std::map<std::string, z3::func_decl>* ufs;
@@ -807,13 +816,14 @@ int main(int argc, char** argv) {
   const char* m = getenv("SYM_MODE"); if (m && !strcmp(m, "fp")) mode = FP;
   if (getenv("SYM_TIMEOUT_MS")) timeout_ms = atoi(getenv("SYM_TIMEOUT_MS"));
   if (getenv("SYM_UNKNOWN_ABORT")) unknown_both = false;
+  if (getenv("SYM_TRACE_FORKS")) trace_forks = true;
   if (const char* o = getenv("SYM_OUT")) { outfd = open(o, O_WRONLY | O_CREAT | O_APPEND, 0644); if (outfd < 0) { perror("SYM_OUT"); return 2; } }
   sh = (Shared*)mmap(0, sizeof(Shared), PROT_READ | PROT_WRITE, MAP_SHARED | MAP_ANONYMOUS, -1, 0);
   memset(sh, 0, sizeof(Shared)); sh->maxprocs = getenv("SYM_PROCS") ? atoi(getenv("SYM_PROCS")) : 1;
   if (getenv("SYM_BUDGET_S")) sh->deadline = now_s() + atof(getenv("SYM_BUDGET_S"));
   ctx = new z3::context();
   if (getenv("SYM_INC_TIMEOUT_MS")) inc_timeout_ms = atoi(getenv("SYM_INC_TIMEOUT_MS"));
-  slv = new z3::solver(*ctx); nl_memo = new std::map<unsigned, bool>();
+  slv = new z3::solver(*ctx); nl_memo = new std::map<unsigned, bool>(); decided = new std::map<unsigned, bool>(); keep = new std::vector<z3::expr>();
   terms = new std::vector<Term>(); somp = new z3::params(*ctx); somp->set("som", true); somp->set("som_blowup", 100000u); somp->set("expand_power", true); somp->set("arith_lhs", true);
   inputs = new std::vector<std::pair<std::string, z3::expr>>(); choices = new std::vector<std::string>(); axioms_used = new std::vector<std::string>();
   ufs = new std::map<std::string, z3::func_decl>(); tapps = new std::map<std::string, std::vector<TApp>>(); sqrt_of = new std::map<std::string, Term>();
